@@ -818,8 +818,18 @@ func (g *Gen) Script(run *Run) *Op {
 				break
 			}
 			d := a.BAs[(g.step-1)%len(a.BAs)]
-			return &Op{K: "commit", Dt: r.Pick64([]int64{1, 5}), S: d.Blobber, A: l, B: d.Blobber, C: a.Owner,
-				N: r.Pick64([]int64{64 * KB, 128 * KB, 256 * KB, MB, 3 * MB})}
+			// file size for which a few seconds of storage earn the validators about one token
+			n := int64(64 * KB)
+			if vr := h.Conf.ValidatorReward; vr > 0 && d.WP > 0 {
+				n = int64(pickF(r, []float64{0.3, 0.15, 0.6}) * float64(h.Conf.TimeUnitSec) * float64(GB) / (float64(d.WP) * vr))
+			}
+			if n < 64*KB {
+				n = 64 * KB
+			}
+			if n > 64*MB {
+				n = 64 * MB
+			}
+			return &Op{K: "commit", Dt: r.Pick64([]int64{1, 5}), S: d.Blobber, A: l, B: d.Blobber, C: a.Owner, N: n}
 		case g.step <= 22:
 			l, a := firstOpen()
 			if a == nil {
